@@ -48,4 +48,19 @@ func init() {
 		Bounds:  map[string]string{"quick": "300 consecutive NewV4 calls in one process; every byte of the crypto/rand stream symbolic; short reads of rand.Reader allowed by the io.Reader contract", "thorough": "same"},
 		Outside: []string{"'never repeats / unpredictable' is a probabilistic statement about the OS generator: reduced to source identity (every free bit is a distinct crypto/rand stream bit) and injectivity of the rendering", "goroutine interleavings of NewV4 (C17)"},
 	})
+	reg(&PropSpec{ID: "C19",
+		Harnesses: []HarnessSpec{
+			{Name: "VH_C19_keys", Replay: "native"},
+			{Name: "VH_C19_fields", Replay: "native"},
+		},
+		Bounds:  map[string]string{"quick": "all 16 combinations of {SPKeyStore, SPSigningKeyStore, SetSPKeyStore, SetSPSigningKeyStore} x field key store kind; certificates arbitrary (possibly empty) byte strings; validity hours any int64 <= 2562047; clock 1970..2100", "thorough": "same"},
+		Outside: []string{"encoding/xml.Marshal of the descriptor (XML round trip)", "validityHours large enough to overflow int64 nanoseconds"},
+	})
+	reg(&PropSpec{ID: "C13",
+		Harnesses: []HarnessSpec{
+			{Name: "VH_C13_signing_key", Replay: "native"},
+		},
+		Bounds:  map[string]string{"quick": "all 16 key configurations x any algorithm string", "thorough": "same"},
+		Outside: []string{"that the signature verifies after serialisation (canonicalisation, digest, RSA): dependency"},
+	})
 }
